@@ -50,6 +50,7 @@ HARNESSES = [
     Harness('outputs_agree', h_outputs, setup=SC.setup,
             cases=[{'names': True}, {'names': False},
                    {'names': True, 'hmap': True},
+                   {'names': True, 'hmap': 'tricky'},
                    {'names': True, 'shared_label': True},
                    {'names': True, 'childless': True}],
             thorough_cases=[{'names': True, 'encodings': True},
